@@ -62,3 +62,15 @@ CHECKS["C06"] = dict(
     parts=[P("schedules", "^TestC06Schedules$", shards=(8, 16)), P("startup", "^TestC06Startup$", shards=(2, 4))],
     floor=150,
 )
+
+CHECKS["C07"] = dict(
+    level="exploration",
+    technique="unambiguous submission/acknowledgement ledger checked offline (equal acknowledgements per entry within a cache epoch, no re-admission of pending/acknowledged entries, exactly-once between admissions and leaves via the commit monitor, every acknowledgement names its leaf) with the sequencer held in each phase; race detector on the concurrent workload; real recompute-cache binary checked against an independent key derivation",
+    text="A universe of 10 entries with the confusable pairs the property names is submitted between rounds and while the sequencer is held in each of its phases (pause hook, staging upload, lock CAS, tile upload, checkpoint upload, staging discard, inside the cache write via a held SQLite write lock), with failed rounds, restarts, cache loss, cache rollback, a legacy 128-bit table and its removal while running. Oracle: acknowledgements of one entry are identical within a cache epoch; an entry that is pending, being sequenced or acknowledged is never admitted as a new leaf; lock commits equal truth + admitted pool (exactly-once); every acknowledgement names a stored leaf with its identity and timestamp. A free-running concurrent workload (also under -race) checks the same without epochs. The built recompute-cache binary rebuilds the cache of real LocalBackend logs; rows are compared with an independent key derivation and resubmissions are judged against storage.",
+    note="Phases are reached through backend-call gates, the existing pause hook (behind the verif tag) and a SQLite write lock; interleavings inside a phase are left to the Go scheduler and the race detector. Trusted: harness stores, reference decoder.",
+    design_ref="DESIGN.md section 3, C07",
+    parts=[P("phases", "^TestC07Phases$", shards=(8, 16)), P("stress", "^TestC07Stress$", shards=(2, 4)),
+           P("stress-race", "^TestC07Stress$", race=True, shards=(1, 4)),
+           P("recompute", "^TestC07Recompute$", shards=(1, 4), bins=("recompute-cache",))],
+    floor=100,
+)
